@@ -440,6 +440,10 @@ package internal
 //@   option props=[C13]
 //@   ghost miss bool = false
 //@   ghost unusedLeft int = 0
+//@   ghost fresh bool = false
+//@   at call At 1 ghost fresh = ret == nil
+//@   at call Set 2 ghost fresh = false
+//@   at call Set 2 pre assert [C14] the-type-just-popped-is-marked-visited: fresh
 //@   requires $C && f != nil && f.providers != nil
 //@   requires providers-hold-function-indices: $PROVIDX(f)
 //@   requires funcs-non-nil: forall(i, int, implies(0 <= i && i < len(f.Funcs), f.Funcs[i] != nil && f.Funcs[i].Node != nil))
@@ -447,6 +451,7 @@ package internal
 //@   loop 1 invariant providers-map-unchanged: $UNCH(f) && $MONO
 //@   loop 2 invariant queue-holds-visit-records: $QT && $UNCH(f) && $MONO
 //@   loop 3 invariant queue-holds-visit-records: $QT && $UNCH(f) && $MONO
+//@   loop 4 invariant [C14] a-type-met-for-the-first-time-is-processed-not-skipped: !fresh
 //@   loop 4 invariant [C14] missing-provider-was-reported: !miss && $QT && $UNCH(f) && $MONO
 //@   loop 5 invariant [C14] dependencies-queued-so-far: 0 <= idx5 && idx5 <= len(fn.Dependencies) && !miss && $QT && $UNCH(f) && $MONO
 //@   at call PushBack 3 pre assert [C14] every-dependency-of-a-needed-provider-is-queued: unboxed(arg1).Type == fn.Dependencies[idx5]
